@@ -250,6 +250,10 @@ def C01(run):
                simulate='num=%d' % n, workers=8, timeout_ms=5000)
     # "nesting depth within a few hundred levels": the depth / length boundary family as text
     deep(run, family='total', profiles=('debug', 'release'))
+    # the tool's own way into the parser (reading the file, anything it does to the text first): a handful of odd little files through
+    # `rrss parse|lint|exec`; a crash of the tool shows as an exit status or an output CliTrace.tla does not accept
+    run.rule += '; 30 odd little files (empty, a lone `#!`, lone quotes and parentheses, bare CR ...) through the built binary'
+    clitrace(run, (), raw=RAW_TEXTS)
     # long but FLAT texts (MC_Flat.tla): a unit repeated some 10^5 times between tokens, around statements, inside comments, strings,
     # poetic literals, identifiers and numerals, wherever the recogniser model says that repetition adds no nesting
     run.rule += ('; long flat texts: every one-character (thorough: also two-character) unit repeated to 400 000 (100 000) characters in each '
@@ -368,7 +372,11 @@ def C05(run):
     interptrace(run)
 
 
-def clitrace(run, fams, only=None, det_only=False):
+RAW_TEXTS = ['', '#!', '#!/usr/bin/env rrss', '#!\nsay 1\n', '\r', '\r\n', '(', '"', "'", "'" * 4, 'ab1', '.', '-', ',', 'say', 'say "a\r\nb"',
+             ' \t ', '\n\n\n', 'else', "x's", "'s", '_', '1.2.3', '.5.5', 'say 1 (', '%%', '#', '#!#!', 'x is', 'x says']
+
+
+def clitrace(run, fams, only=None, det_only=False, raw=None):
     """Record runs of the built rrss binary on TLC-generated programs and validate every observation against CliTrace.tla.
     det_only (C10): every command is run four times and only a difference between the runs is recorded (and rejected)."""
     import subprocess
@@ -390,6 +398,9 @@ def clitrace(run, fams, only=None, det_only=False):
                     out.write(l)
                     n += 1
             os.remove(o)
+        # odd little files written down here (not rendered by the grammar): what the tool does with them is what the library does
+        for t in (raw or []):
+            out.write(json.dumps(dict(fam='cli', raw=True, text=t, inp=[], out='', st='unspec')) + '\n')
     rrss = build_rrss_bin()
     binp = build_harness('debug')
     trace = run.path('cli.ndjson')
@@ -697,7 +708,7 @@ def C20(run):
     run.assumptions += ['`rrss` with no argument at all exits 0 today; the statement does not settle whether that is bad usage, so it is not judged',
                         'ASCII corpus (TLC prints non-ASCII as ?)']
     run.add_tlc('cli-model', run_tlc('MC_Cli.tla', 'MC_Cli.cfg', run.path('mc_cli.out'), workers=4))
-    clitrace(run, (('cli', 1000), ('fault', 120 if run.tier == 'quick' else 2000), ('stmt', 60 if run.tier == 'quick' else 600)))
+    clitrace(run, (('cli', 1000), ('fault', 120 if run.tier == 'quick' else 2000), ('stmt', 60 if run.tier == 'quick' else 600)), raw=RAW_TEXTS)
 
 
 PROPS = {
